@@ -2,6 +2,8 @@ package props
 
 import (
 	"fmt"
+	"go/token"
+	"go/types"
 	"strings"
 
 	"golang.org/x/tools/go/ssa"
@@ -224,4 +226,129 @@ func (h H) probeBackoffProgress(rule string) {
 		h.C.Check(rule+" only-on-mismatch", "(*replication).onAppendEntriesResp store nextIndex", r.OK, h.pos(s.Instr), "nextIndex lowered for a reply that is not a log mismatch")
 	}
 	h.C.Floor(rule+" (nextIndex stores in onAppendEntriesResp)", n, 1)
+}
+
+// pipelineRequestsAccounted (C06.4c / C01.3d / C18.2f): replies are matched to
+// requests by position, so on every exit that keeps the connection the
+// pipeline must have read as many responses as it wrote requests. The writer
+// records each written request in resultCh — except when its select takes the
+// stop case after the write: then it must mark the request as unaccounted,
+// and the draining side must read one more response when that mark is set
+// (F21: a response left on a pooled connection answers the next request — a
+// vote that was never given, a premature match index).
+func (h H) pipelineRequestsAccounted(rule string) {
+	fn := h.fn("raft:(*replication).replicate")
+	wr := h.fn("raft:(*replication).writeAppendEntriesReq")
+	rd := h.fn("raft:(*conn).readResp")
+	var writer *ssa.Function
+	for _, cl := range h.P.Closures(fn) {
+		if cl.Parent() == fn && len(h.P.CallsTo(cl, wr)) > 0 {
+			writer = cl
+		}
+	}
+	if !h.C.Check(rule+" writer", "(*replication).replicate pipeline writer", writer != nil, h.fpos(fn), "pipeline writer goroutine not found") {
+		return
+	}
+	wfi := h.P.Info(writer)
+	n := 0
+	cell := ""
+	core.Instrs(writer, func(in ssa.Instruction) {
+		sel, ok := in.(*ssa.Select)
+		if !ok || !sel.Blocking || sel.Parent() != writer {
+			return
+		}
+		recvIdx, sendIdx := -1, -1
+		for i, st := range sel.States {
+			c := wfi.Sym(st.Chan).String()
+			if st.Dir == types.RecvOnly && strings.HasSuffix(c, "stopCh") {
+				recvIdx = i
+			}
+			if st.Dir == types.SendOnly && strings.HasSuffix(c, "resultCh") {
+				sendIdx = i
+			}
+		}
+		if recvIdx < 0 || sendIdx < 0 {
+			return
+		}
+		n++
+		// the block taken when the stop case was chosen
+		var stopBlock *ssa.BasicBlock
+		for _, b := range writer.Blocks {
+			iff, ok := b.Instrs[len(b.Instrs)-1].(*ssa.If)
+			if !ok {
+				continue
+			}
+			bo, ok := iff.Cond.(*ssa.BinOp)
+			if !ok || bo.Op != token.EQL {
+				continue
+			}
+			ex, ok := bo.X.(*ssa.Extract)
+			cst, ok2 := bo.Y.(*ssa.Const)
+			if ok && ok2 && ex.Tuple == ssa.Value(sel) && ex.Index == 0 && cst.Value != nil && cst.Value.String() == fmt.Sprint(recvIdx) {
+				stopBlock = b.Succs[0]
+			}
+		}
+		site := "(*replication).replicate writer select@" + shortPos(h.pos(sel))
+		if !h.C.Check(rule+" stop-case", site, stopBlock != nil, h.pos(sel), "cannot find the branch taken when the stop case wins") {
+			return
+		}
+		r := wfi.AlwaysFollowedFrom(stopBlock, 0, func(x ssa.Instruction) bool {
+			st, ok := x.(*ssa.Store)
+			if !ok {
+				return false
+			}
+			if _, isFree := st.Addr.(*ssa.FreeVar); !isFree {
+				return false
+			}
+			if strings.Contains(wfi.Sym(st.Val).String(), "(*replication).writeAppendEntriesReq(") {
+				cell = wfi.Sym(st.Addr).String()
+				return true
+			}
+			return false
+		}, nil)
+		h.C.Check(rule+" written-but-unrecorded-marked", site, r.OK, h.pos(sel), "the writer can stop after a request went on the wire without recording it and without marking it: one response stays unread on a connection that is reused: "+r.Witness)
+	})
+	h.C.Floor(rule+" (writer selects between stop and result)", n, 1)
+	if cell == "" {
+		return
+	}
+	// the mark is honoured: some closure of replicate reads one more response under it
+	honoured := false
+	for _, cl := range h.P.Closures(fn) {
+		if cl == writer {
+			continue
+		}
+		cfi := h.P.Info(cl)
+		for _, c := range h.P.CallsTo(cl, rd) {
+			if c.Parent() != cl {
+				continue
+			}
+			if cfi.MustCross(c.(ssa.Instruction), func(a core.Atom) bool { return a.Op == "true" && a.L == cell }).OK && reachableInstr(c.(ssa.Instruction)) {
+				honoured = true
+			}
+		}
+	}
+	h.C.Check(rule+" mark-honoured", "(*replication).replicate "+cell, honoured, h.fpos(fn), "the mark set by the writer for a written but unrecorded request is never turned into one more response read")
+}
+
+// reachableInstr: the instruction's block can be reached from the function's
+// entry along edges that are not constant-false.
+func reachableInstr(in ssa.Instruction) bool {
+	fn := in.Parent()
+	seen := map[*ssa.BasicBlock]bool{fn.Blocks[0]: true}
+	stack := []*ssa.BasicBlock{fn.Blocks[0]}
+	for len(stack) > 0 {
+		b := stack[len(stack)-1]
+		stack = stack[:len(stack)-1]
+		if b == in.Block() {
+			return true
+		}
+		for i, s := range b.Succs {
+			if !seen[s] && core.FeasibleSucc(b, i) {
+				seen[s] = true
+				stack = append(stack, s)
+			}
+		}
+	}
+	return false
 }
